@@ -18,9 +18,9 @@ const (
 var vGapOptions = [][]string{
 	gBlank0: {"", " ", "\t", " \r ", "  "},
 	gBlank1: {" ", "\t", "  ", " \t "},
-	gBreak:  {"", " ", "\n", "\n\n", " # c\n", "\n\t ", "# x\n# y\n"},
-	gStmt:   {"\n", ";", "\n\n", " # c\n", ";\n", "\n# c\n", " ; "},
-	gBreak1: {" ", "\n", "\n\n", " # c\n", "\n\t ", " # x\n# y\n"},
+	gBreak:  {"", " ", "\n", "\n\n", " # c\n", "\n\t ", "# x\n# y\n", "#\n", " #\n  "},
+	gStmt:   {"\n", ";", "\n\n", " # c\n", ";\n", "\n# c\n", " ; ", " #\n", "\n#\n"},
+	gBreak1: {" ", "\n", "\n\n", " # c\n", "\n\t ", " # x\n# y\n", " #\n"},
 }
 
 type vSeg struct {
